@@ -19,6 +19,20 @@ NOT_BUILT = ("check not built yet in this round (planned in DESIGN.md section 9)
 NOT_APPLICABLE = {}
 
 CLAIMED = {
+    "C14": {
+        "text": "spec/MC_C14.tla (two workers stepping at environment-operation granularity over the shared cache file and "
+                "a check-then-set lazy table, accept loop, sniff inside the worker, fork/zombie/reap) is model-checked "
+                "exhaustively within bounds for the threading and the forking server (Isolated, AcceptLive, Conservation, "
+                "NoLeak) and for liveness under fairness (Reaped, AllServed). Schedules simulated by TLC from that model are "
+                "replayed on REAL handler threads by a cooperative scheduler (substituted stat/open/listdir/write on the "
+                "cache path grant one operation at a time; the cache write is split in two), a one-preemption sweep over "
+                "every k-th traced line of the first request after start-up covers the lazy tables, and bursts against "
+                "real Threading/Forking servers on loopback (plaintext + TLS, one silent client) cover accept-liveness and "
+                "reaping; TLC validates every execution against spec/trace/TraceC14.tla.",
+        "note": "Trusted: TLC; the scheduler and line tracer in harness/c14.py; preemption bound 1 for lazy tables; live bursts "
+                "use generous (60 s) socket timeouts - a stalled machine could turn into an incomplete-response report; "
+                "responses compared modulo Last-Modified / Mod-Date.",
+    },
     "C10": {
         "text": "spec/Cache.tla (directory, history, half-second clock with integer mtime truncation, cache file as "
                 "chunks, request steps Probe/Load/Gen/SaveOpen/SaveWrite/Render) is model-checked exhaustively within "
